@@ -951,6 +951,55 @@ def run(ctx: Any, prog: Program) -> None:
     # `if any(<test on vert> for vert in self._disp_verts): <write blocks from vert.a, vert.b, ...>`: when the block is absent the reader leaves
     # every one of those fields at its default, so the test has to look at every field the block carries - a value set in a field it does not
     # look at is dropped together with the block.
+    # ---- V28: a flag key carries its own field ------------------------------------------------------------------------------------------------
+    # `"visgroupshown" "{bool_as_int(self.vis_shown)}"`: the parser stores each flag key into its own field.  A writer that computes the flag
+    # from several fields (`self.vis_shown and not (self.hidden and self.visgroup_ids)`) changes the field for some combination of the others.
+    ctx.rule('C06.V28', 'a flag written with bool_as_int() is one field of the object, not a combination of several', floor=6)
+    n28 = 0
+    for q28, fl28 in vm.all_funcs().items():
+        for f28 in fl28:
+            ldefs: Dict[str, List[ast.AST]] = {}
+            for a in walk_no_nested(f28):
+                if isinstance(a, ast.Assign):
+                    for t in a.targets:
+                        if isinstance(t, ast.Name):
+                            ldefs.setdefault(t.id, []).append(a.value)
+            for c28 in [c for c in ast.walk(f28) if isinstance(c, ast.Call) and (dotted(c.func) or '').split('.')[-1] == 'bool_as_int' and len(c.args) == 1]:
+                fields28: Set[str] = set()
+                todo28, seen28 = [c28.args[0]], set()
+                while todo28:
+                    e = todo28.pop()
+                    for x in ast.walk(e):
+                        if isinstance(x, ast.Attribute) and isinstance(x.value, ast.Name) and x.value.id == 'self':
+                            fields28.add(x.attr)
+                        elif isinstance(x, ast.Name) and x.id in ldefs and x.id not in seen28:
+                            seen28.add(x.id)
+                            todo28 += ldefs[x.id]
+                n28 += 1
+                ctx.check('C06.V28', len(fields28) <= 1, vm, c28, f'{q28} writes `{U(c28)[:50]}`, computed from the fields {sorted(fields28)}: the parser stores this key into one field, so for some values of the other '
+                          'fields the object read back has another flag than the one exported', func=q28, text=f'{q28}: `{U(c28)[:40]}` is one field')
+    ctx.shape('C06.V28', n28 >= 6, vm, vm.tree, f'{n28} bool_as_int() writes found in vmf.py', text='flag writes')
+    # ---- V29: the group table holds what the file defines -----------------------------------------------------------------------------------
+    # `group {}` blocks are parsed into VMF.groups; brushes and entities only carry group *ids*.  A parser that invents a group because an id
+    # refers to one it has not seen (the world's group blocks follow its brushes) reserves that id, so the real block is renumbered or ordered
+    # differently, and the export has groups the file never had.
+    ctx.rule('C06.V29', 'entries of VMF.groups made while parsing come from EntityGroup.parse of a group block', floor=1)
+    n29 = 0
+    for q29, fl29 in vm.all_funcs().items():
+        if 'parse' not in q29.split('.')[-1]:
+            continue
+        for f29 in fl29:
+            ld29 = {t.id: a.value for a in walk_no_nested(f29) if isinstance(a, ast.Assign) and len(a.targets) == 1 for t in a.targets if isinstance(t, ast.Name)}
+            stores29 = [(a, a.value) for a in walk_no_nested(f29) if isinstance(a, ast.Assign) for t in a.targets if isinstance(t, ast.Subscript) and isinstance(t.value, ast.Attribute) and t.value.attr == 'groups']
+            stores29 += [(c, c.args[-1]) for c in walk_no_nested(f29) if isinstance(c, ast.Call) and isinstance(c.func, ast.Attribute) and c.func.attr == 'setdefault' and isinstance(c.func.value, ast.Attribute)
+                         and c.func.value.attr == 'groups' and len(c.args) == 2]
+            for node29, v29 in stores29:
+                src29 = ld29.get(v29.id, v29) if isinstance(v29, ast.Name) else v29
+                n29 += 1
+                ok29 = isinstance(src29, ast.Call) and (dotted(src29.func) or '').endswith('EntityGroup.parse')
+                ctx.check('C06.V29', ok29, vm, node29, f'{q29} puts `{U(src29)[:50]}` into the map\'s group table while parsing: only `group` blocks define groups - a made-up entry takes the id (and the place in the export '
+                          'order) of the block that defines it later in the file', func=q29, text=f'{q29}: group table entry comes from a group block')
+    ctx.shape('C06.V29', n29 >= 1, vm, vm.tree, 'no store into VMF.groups found in the parse functions (Entity.parse confirmed by hand)', text='group table stores')
     ctx.rule('C06.V22', 'the presence test of an optional per-vertex block looks at every per-vertex field the block carries', floor=1)
     ed22 = vm.func('Side._export_displacement')
     n22 = 0
@@ -1623,6 +1672,8 @@ def elt_token_alternatives(elt: ast.AST, tokens_of_type: Dict[str, int]) -> Opti
 
 
 MUTANTS = [
+    {'id': 'entity_parse_invents_groups', 'file': 'vmf.py', 'find': "                        elif editor_prop.name == 'groupid':\n                            group_ids.append(int(editor_prop.value))", 'replace': "                        elif editor_prop.name == 'groupid':\n                            group_ids.append(int(editor_prop.value))\n                            vmf_file.groups.setdefault(group_ids[-1], EntityGroup(vmf_file, group_ids[-1]))", 'expect': 'C06.V29', 'refuse_ok': True, 'note': 'round 12'},
+    {'id': 'solid_vis_shown_coupled_to_hidden', 'file': 'vmf.py', 'find': "            buffer.write(f'{ind}\\t\\t\"visgroupshown\" \"{srctools.bool_as_int(self.vis_shown)}\"\\n')\n            buffer.write(f'{ind}\\t\\t\"visgroupautoshown\" \"{srctools.bool_as_int(self.vis_auto_shown)}\"\\n')\n            buffer.write(f'{ind}\\t\\t\"logicalpos\"", 'replace': "            buffer.write(f'{ind}\\t\\t\"visgroupshown\" \"{srctools.bool_as_int(self.vis_shown and not self.hidden)}\"\\n')\n            buffer.write(f'{ind}\\t\\t\"visgroupautoshown\" \"{srctools.bool_as_int(self.vis_auto_shown)}\"\\n')\n            buffer.write(f'{ind}\\t\\t\"logicalpos\"", 'expect': 'C06.V28', 'note': 'round 12'},
     {'id': 'comment_unescaped_a_second_time', 'file': 'vmf.py', 'find': "                            comment = editor_prop.value\n", 'replace': "                            comment = editor_prop.value.replace('\\\\n', '\\n')\n", 'expect': 'C06.V24'},
     {'id': 'hidden_brushes_collected_separately', 'file': 'vmf.py', 'find': "                            solids.append(Solid.parse(vmf_file, brush_prop, hidden=True))", 'replace': "                            hidden_solids.append(Solid.parse(vmf_file, brush_prop, hidden=True))", 'extra': [{'file': 'vmf.py', 'find': "        solids: list[Solid] = []\n        keys: dict[str, str] = {}", 'replace': "        solids: list[Solid] = []\n        hidden_solids: list[Solid] = []\n        keys: dict[str, str] = {}"}, {'file': 'vmf.py', 'find': "            outputs,\n            solids,\n            hidden,", 'replace': "            outputs,\n            solids + hidden_solids,\n            hidden,"}], 'expect': 'C06.V24'},
     {'id': 'zero_rows_skipped_by_shared_reader', 'file': 'vmf.py', 'find': "        for y, split in self._iter_disp_row(tree, name, 3 * size):\n", 'replace': "        for y, split in self._iter_disp_row(tree, name, 3 * size):\n            if split.count('0') == len(split):\n                continue\n", 'expect': 'C06.V26'},
